@@ -465,15 +465,8 @@ Fixpoint seval (d : nat) (m : list (string * string)) (rho : valuation) (t : str
   | SOther _ => 0
   end.
 
-(* trees sympy builds: no empty product, no zero exponent *)
-Fixpoint wf_tree (t : stree) : bool :=
-  match t with
-  | SAdd args => forallb wf_tree args
-  | SMul args => negb (match args with [] => true | _ => false end) && forallb wf_tree args
-  | SPow b (SInt z) => negb (Z.eqb z 0) && wf_tree b
-  | SPow b _ => wf_tree b
-  | _ => true
-  end.
+(* wf_tree (trees sympy builds: no empty product, no zero exponent) is defined in Model/SymbolicGlue.v: the correspondence checks it
+   on every tree of a run *)
 
 Section Value.
   Variable rho : valuation.
